@@ -32,6 +32,7 @@ def cov_of(U, lam):
 
 # ----------------------------------------------------------------------------- single trainers
 _SAL_COUNT = [0]
+_LARGE = [False]
 _FORCE = [None]      # dedicated stratum: every trainer once with an integer and once with a boolean saliency
 
 
@@ -59,6 +60,8 @@ def sal_kind(rng, s):
 def single_gauss(rng, tier):
     from pb_bss.distribution import GaussianTrainer
     D, N = int(rng.integers(1, 6)), int(rng.integers(6, 20))
+    if _LARGE[0]:
+        D, N = min(D, 3), int(rng.integers(33000, 45000))        # a long recording (block-wise accumulation, remainders)
     lead = tuple(int(v) for v in rng.integers(1, 3, int(rng.integers(0, 2))))
     y = rng.normal(size=(*lead, N, D)) * 10.0 ** rng.integers(-2, 3) + rng.normal(size=(*lead, 1, D)) * 3
     s = None if (rng.random() < 0.3 and not _FORCE[0]) else sal_kind(rng, rng.uniform(0.0, 2.0, size=(*lead, N)))
@@ -84,6 +87,8 @@ def eval_gauss(rp, rng):
         return 'GaussianTrainer(%s) is not the weighted mean / pooled weighted scatter' % ct, 'single:gauss:%s' % ct, None
     li = tuple(int(rng.integers(0, n)) for n in y.shape[:-2])
     D, N = y.shape[-1], y.shape[-2]
+    if N > 400:
+        return None, None, None
     coq = 'check_gauss_fit %d %d %s %s %s %d %s %s' % (
         D, N, core.fhex(TINY), core.fmat(y[li]), core.flist(ss[li]), ['full', 'diagonal', 'spherical'].index(ct),
         core.flist(m.mean[li]), core.flist(np.asarray(m.covariance[li]).reshape(-1)))
@@ -92,6 +97,8 @@ def eval_gauss(rp, rng):
 
 def single_ccsg(rng, tier):
     D, N = int(rng.integers(1, 5)), int(rng.integers(5, 16))
+    if _LARGE[0]:
+        D, N = min(D, 3), int(rng.integers(33000, 45000))        # a long recording (block-wise accumulation, remainders)
     lead = tuple(int(v) for v in rng.integers(1, 3, int(rng.integers(0, 2))))
     y = mm.crandn(rng, (*lead, N, D)) * 10.0 ** rng.integers(-2, 3)
     s = None if (rng.random() < 0.3 and not _FORCE[0]) else sal_kind(rng, rng.uniform(0.0, 2.0, size=(*lead, N)))
@@ -110,6 +117,8 @@ def eval_ccsg(rp, rng):
         return 'complex Gaussian trainer is not the weighted outer-product mean E[y y^H]', 'single:ccsg', None
     li = tuple(int(rng.integers(0, n)) for n in y.shape[:-2])
     D, N = y.shape[-1], y.shape[-2]
+    if N > 400:
+        return None, None, None
     coq = 'check_ccsg_fit %d %d %s %s %s %s' % (D, N, core.fhex(TINY), core.cmat(y[li]), core.flist(ss[li]),
                                                 core.clist(m.covariance[li].reshape(-1)))
     return None, None, coq
@@ -117,6 +126,8 @@ def eval_ccsg(rp, rng):
 
 def single_vmf(rng, tier):
     D, N = int(rng.integers(2, 6)), int(rng.integers(5, 16))
+    if _LARGE[0]:
+        D, N = min(D, 3), int(rng.integers(33000, 45000))        # a long recording (block-wise accumulation, remainders)
     lead = tuple(int(v) for v in rng.integers(1, 3, int(rng.integers(0, 2))))
     mu = rng.normal(size=(*lead, 1, D))
     y = mu * float(rng.choice([0.0, 1.0, 4.0])) + rng.normal(size=(*lead, N, D))
@@ -146,6 +157,8 @@ def eval_vmf(rp, rng):
         return 'vMF concentration is not the clipped Banerjee estimate', 'single:vmf:kappa', None
     li = tuple(int(rng.integers(0, n)) for n in y.shape[:-2])
     N = y.shape[-2]
+    if N > 400:
+        return None, None, None
     coq = 'check_vmf_fit %d %d %s %s %s %s %s %s %s' % (
         D, N, core.fhex(TINY), core.fhex(kmin), core.fhex(kmax), core.fmat(y[li]), core.flist(ss[li]),
         core.flist(m.mean[li]), core.fhex(m.concentration[li]))
@@ -159,6 +172,8 @@ def _watson_ratio(kappa, D):
 
 def single_watson(rng, tier):
     D, N = int(rng.integers(2, 6)), int(rng.integers(6, 18))
+    if _LARGE[0]:
+        D, N = min(D, 3), int(rng.integers(33000, 45000))        # a long recording (block-wise accumulation, remainders)
     lead = tuple(int(v) for v in rng.integers(1, 3, int(rng.integers(0, 2))))
     a = mm.crandn(rng, (*lead, 1, D))
     y = a * mm.crandn(rng, (*lead, N, 1)) * float(rng.choice([0.3, 1.0, 5.0])) + mm.crandn(rng, (*lead, N, D))
@@ -190,6 +205,8 @@ def eval_watson(rp, rng):
         return ('Watson concentration: eigenvalue ratio of the fitted concentration differs from the top scatter eigenvalue by %.3g'
                 % np.abs(_watson_ratio(kap[inside], D) - top[inside]).max()), 'single:watson:kappa', None
     li = tuple(int(rng.integers(0, n)) for n in y.shape[:-2])
+    if N > 400:
+        return None, None, None
     coq = 'check_watson_fit %d %d %s %s %s %s %s' % (D, N, core.fhex(TINY), core.cmat(y[li]), core.flist(ss[li]),
                                                     core.clist(m.mode[li]), core.fhex(top[li]))
     return None, None, coq
@@ -822,6 +839,13 @@ def cases(rng, tier):
                     out.append(fn(rng, tier))
                 finally:
                     _FORCE[0] = None
+    for fn in (single_gauss, single_ccsg, single_vmf, single_watson):
+        for rep in range(1 if q else 3):
+            _LARGE[0] = True
+            try:
+                out.append(fn(rng, tier))
+            finally:
+                _LARGE[0] = False
     for i in range(28 if q else 250):
         out.append(trace_case(rng, tier))
     for i in range(6 if q else 60):
